@@ -28,7 +28,12 @@ type op struct {
 	Target string   `json:"target,omitempty"` // update/remove: stored name; flip: which
 	Name   string   `json:"name,omitempty"`
 	IDs    []string `json:"ids,omitempty"`
-	Own    int      `json:"own,omitempty"` // bit 0: own settings (+ own upstream), bit 1: own blocked services
+	// Own, bit 0: own settings (+ own upstream); bit 1: own blocked services;
+	// bit 2: the client record carries its own values (filtering off, safe
+	// browsing, parental, safe search with its filter object, a list of blocked
+	// services) whether or not the two switches above are on — what is left in a
+	// record after "use global settings" is ticked back on.
+	Own int `json:"own,omitempty"`
 }
 
 var (
@@ -86,9 +91,11 @@ func alphabet(quick bool) []op {
 	for i := 0; i < nflips; i++ {
 		ops = append(ops, op{Kind: "flip", Target: fmt.Sprint(i)})
 	}
-	owns := []int{0, 1, 2, 3}
+	owns := []int{0, 1, 2, 3, 4}
 	if quick {
-		owns = owns[:1] // in quick, own settings are only switched on by updates
+		// in quick, own settings are only switched on by updates, and every
+		// record carries its own values (bit 2) whatever the switches say
+		owns = []int{4}
 	}
 	for _, own := range owns {
 		for _, s := range sets {
@@ -97,9 +104,11 @@ func alphabet(quick bool) []op {
 			}
 		}
 	}
-	updOwns := []int{0, 1, 2, 3}
+	updOwns := []int{0, 1, 2, 3, 4}
 	if quick {
-		updOwns = []int{0, 1, 2} // none, own settings only, own blocked services only
+		// switches: none, own settings only, own blocked services only; the values
+		// behind a switch that is off are stored all the same
+		updOwns = []int{4, 5, 6}
 	}
 	for _, own := range updOwns {
 		for _, s := range sets {
@@ -301,18 +310,20 @@ func mkPersistent(o op, uidN int) *client.Persistent {
 	if err := p.SetIDs(o.IDs); err != nil {
 		panic(err)
 	}
-	if o.Own&1 != 0 {
-		p.UseOwnSettings = true
+	p.UseOwnSettings = o.Own&1 != 0
+	if o.Own&(1|4) != 0 {
 		p.FilteringEnabled = false
 		p.SafeBrowsingEnabled = true
 		p.ParentalEnabled = true
 		p.SafeSearchConf.Enabled = true
 		p.SafeSearchConf.Google = uidN%2 == 0
 		p.SafeSearch = &markSS{tag: ssTag(uidN)}
+	}
+	if o.Own&1 != 0 {
 		p.Upstreams = []string{"1.1.1.1"}
 	}
-	if o.Own&2 != 0 {
-		p.UseOwnBlockedServices = true
+	p.UseOwnBlockedServices = o.Own&2 != 0
+	if o.Own&(2|4) != 0 {
 		p.BlockedServices = &filtering.BlockedServices{IDs: []string{"svc_" + o.Name}}
 	}
 	return p
@@ -322,7 +333,7 @@ func dumpKey(s *client.Storage) (string, []*client.Persistent, []client.VerifInd
 	cs, es := client.VerifDump(s)
 	var sb strings.Builder
 	for _, c := range cs {
-		fmt.Fprintf(&sb, "C %s %v own=%v,%v bs=%v up=%v|", c.Name, c.IDs(), c.UseOwnSettings, c.UseOwnBlockedServices, c.BlockedServices.IDs, c.Upstreams)
+		fmt.Fprintf(&sb, "C %s %v own=%v,%v bs=%v up=%v ss=%v|", c.Name, c.IDs(), c.UseOwnSettings, c.UseOwnBlockedServices, c.BlockedServices.IDs, c.Upstreams, c.SafeSearch != nil)
 	}
 	for _, e := range es {
 		fmt.Fprintf(&sb, "%s:%s>%s|", e.Kind, e.ID, e.Owner)
@@ -504,6 +515,9 @@ func exec(hist []op) lib.Step {
 				if ms, ok := setts.ClientSafeSearch.(*markSS); ok && ms != nil {
 					gotSS = ms.tag
 				}
+				if gotSS != "" && rc.Own&1 == 0 {
+					return fail("settings:own-safe-search-filter-while-using-global-settings", "client %q (own flags=%d) does not opt out of the global settings, yet the request is given the client's own safe-search filter %q", rc.Name, rc.Own, gotSS)
+				}
 				if gotSS != rc.SS {
 					return fail("settings:safe-search-filter-of-earlier-settings", "client %q (own flags=%d): the request is given %q, the client's current settings were stored with %q", rc.Name, rc.Own, gotSS, rc.SS)
 				}
@@ -680,7 +694,7 @@ func main() {
 				"distinct_nontrivial":           m.Distinct["nontrivial"],
 				"distinct_outcomes":             m.Distinct["outcomes"],
 				"max_depth":                     m.Maxes["max_depth"],
-				"rule":                          "BFS over add/update/remove/DHCP-flip histories on the real client.Storage; a state is (dump of the five index maps and stored clients, DHCP table); every transition is executed on the real code and compared with a list-of-clients reference for accept/reject, unchanged-on-reject, index consistency and every lookup (11 probe addresses x 4 ClientIDs x Find/ApplyClientFiltering/CustomUpstreamConfig). non-trivial = transition that changes which client owns some identifier",
+				"rule":                          "BFS over add/update/remove/DHCP-flip histories on the real client.Storage; a state is (dump of the five index maps and stored clients, DHCP table); every transition is executed on the real code and compared with a list-of-clients reference for accept/reject, unchanged-on-reject, index consistency and every lookup; client records are stored with and without their own settings values independently of the use-own switches, and the effective settings must carry the own values (incl. the own safe-search filter object and blocked services) exactly when the switch is on (11 probe addresses x 4 ClientIDs x Find/ApplyClientFiltering/CustomUpstreamConfig). non-trivial = transition that changes which client owns some identifier",
 			}
 		},
 		Assumptions: []string{"between equally specific stored prefixes that both contain an address either owner is accepted", "4-in-6 and zoned probe addresses are not in the probe set"},
